@@ -2,7 +2,9 @@
 //   copy copy_if copy_n copy_backward move move_backward transform(1,2) remove_copy remove_copy_if
 //   partition_copy unique_copy reverse_copy rotate_copy fill fill_n generate generate_n replace
 //   replace_if swap_ranges iter_swap, overlapping copy/move to the left, copy_backward/move_backward
-//   to the right, and etl::back_inserter as destination.
+//   to the right, and etl::back_inserter as destination; copy/move/copy_backward/move_backward between every
+//   pair of positions of one buffer that the standard allows; unary and binary transform in place
+//   (d_first == first / first1 / first2, first1 == first2) on every sub-range of the buffer.
 // Destinations are exact-size blocks pre-filled with a filler element: one write too many is an
 // out-of-range write, one too few leaves a filler in the compared content.
 #include "c06_common.hpp"
@@ -347,6 +349,110 @@ void overwrite_family(Ctx& c, Seq const& a)
             }
         }
     }
+    // within one buffer, every source [i,j) and every destination position the standard allows:
+    //   copy/move:          d_first not in [first,last)   (to the left overlapping, or anywhere disjoint)
+    //   copy/move_backward: d_last  not in (first,last]   (to the right overlapping, or anywhere disjoint)
+    for (std::size_t i = 0; i <= n; ++i) {
+        for (std::size_t j = i; j <= n; ++j) {
+            auto const len = j - i;
+            for (std::size_t d = 0; d + len <= n; ++d) {
+                auto const dl      = d + len;
+                bool const overlap = d < j && i < dl;
+                auto ocls  = [&] { return cat(len_class(len), overlap ? "+overlap" : "+disjoint"); };
+                auto kase  = [&] { return cat(fl, " a=", keys(a), " first=", i, " last=", j, " d_first=", d); };
+                auto bkase = [&] { return cat(fl, " a=", keys(a), " first=", i, " last=", j, " d_last=", dl); };
+                // moved-from positions that are not overwritten afterwards are unspecified
+                auto observe_moved = [&](Obs& o, Buf<E>& A) {
+                    o.sep();
+                    for (std::size_t p = 0; p < n; ++p) {
+                        if (p >= i && p < j && !(p >= d && p < dl)) { continue; }
+                        o.elem(at_view<F>(A, p));
+                    }
+                };
+                if (d < i || d >= j || len == 0) {
+                    if (c.want("copy(first,last,d_first) within one buffer")) {
+                        c.run("copy(first,last,d_first) within one buffer", nt, [&](auto lib, Obs& o) {
+                            Buf<E> A(mem<F>(a));
+                            auto it = C06_ALG(copy)(lib, F::at(lib, A, i), F::at(lib, A, j), F::at(lib, A, d));
+                            o.num(F::off(A, it));
+                            o.buf(A);
+                        }, ocls, kase);
+                    }
+                    if (c.want("move(first,last,d_first) within one buffer")) {
+                        c.run("move(first,last,d_first) within one buffer", nt, [&](auto lib, Obs& o) {
+                            Buf<E> A(mem<F>(a));
+                            auto it = C06_ALG(move)(lib, F::at(lib, A, i), F::at(lib, A, j), F::at(lib, A, d));
+                            o.num(F::off(A, it));
+                            observe_moved(o, A);
+                        }, ocls, kase);
+                    }
+                }
+                if constexpr (F::rank >= 2) {
+                    if (dl <= i || dl > j || len == 0) {
+                        if (c.want("copy_backward(first,last,d_last) within one buffer")) {
+                            c.run("copy_backward(first,last,d_last) within one buffer", nt, [&](auto lib, Obs& o) {
+                                Buf<E> A(mem<F>(a));
+                                auto it = C06_ALG(copy_backward)(lib, F::at(lib, A, i), F::at(lib, A, j), F::at(lib, A, dl));
+                                o.num(F::off(A, it));
+                                o.buf(A);
+                            }, ocls, bkase);
+                        }
+                        if (c.want("move_backward(first,last,d_last) within one buffer")) {
+                            c.run("move_backward(first,last,d_last) within one buffer", nt, [&](auto lib, Obs& o) {
+                                Buf<E> A(mem<F>(a));
+                                auto it = C06_ALG(move_backward)(lib, F::at(lib, A, i), F::at(lib, A, j), F::at(lib, A, dl));
+                                o.num(F::off(A, it));
+                                observe_moved(o, A);
+                            }, ocls, bkase);
+                        }
+                    }
+                }
+            }
+            // transform in place ("result may be equal to first" / "to first1 or first2"), on every sub-range [i,j)
+            auto tcls  = [&] { return len_class(len); };
+            auto tkase = [&] { return cat(fl, " a=", keys(a), " first=", i, " last=", j); };
+            if (c.want("transform(first,last,d_first,op) in place")) {
+                c.run("transform(first,last,d_first,op) in place", nt, [&](auto lib, Obs& o) {
+                    Buf<E> A(mem<F>(a));
+                    auto it = C06_ALG(transform)(lib, F::at(lib, A, i), F::at(lib, A, j), F::at(lib, A, i), AddOne{});
+                    o.num(F::off(A, it));
+                    o.buf(A);
+                }, tcls, tkase);
+            }
+            if (c.want("transform(first1,last1,first2,d_first,op) in place")) {
+                // b: a second sequence of the same length as the whole buffer (keys rotated, tags of the second range)
+                Seq b;
+                for (std::size_t p = 0; p < n; ++p) { b.push_back(E{(a[p].key + 1 + static_cast<int>(p)) % 3, second_tag0 + static_cast<int>(p)}); }
+                for (int where = 0; where < 4; ++where) {
+                    // 0: d_first == first1   1: d_first == first2   2: first1 == first2 == d_first   3: first1 == first2, separate destination
+                    c.run("transform(first1,last1,first2,d_first,op) in place", nt, [&](auto lib, Obs& o) {
+                        Buf<E> A(mem<F>(a));
+                        Buf<E> B(mem<F>(b));
+                        Buf<E> D(len, filler);
+                        auto f1 = F::at(lib, A, i);
+                        auto l1 = F::at(lib, A, j);
+                        if (where == 0) {
+                            auto it = C06_ALG(transform)(lib, f1, l1, F::at(lib, B, i), F::at(lib, A, i), Comb{});
+                            o.num(F::off(A, it));
+                        } else if (where == 1) {
+                            auto it = C06_ALG(transform)(lib, f1, l1, F::at(lib, B, i), F::at(lib, B, i), Comb{});
+                            o.num(F::off(B, it));
+                        } else if (where == 2) {
+                            auto it = C06_ALG(transform)(lib, f1, l1, F::at(lib, A, i), F::at(lib, A, i), Comb{});
+                            o.num(F::off(A, it));
+                        } else {
+                            auto it = C06_ALG(transform)(lib, f1, l1, F::at(lib, A, i), F::at(lib, D, 0), Comb{});
+                            o.num(F::off(D, it));
+                        }
+                        o.buf(A);
+                        o.buf(B);
+                        o.buf(D);
+                    }, [&] { return cat(len_class(len), where == 0 ? "+d_eq_first1" : where == 1 ? "+d_eq_first2" : where == 2 ? "+all_same" : "+first1_eq_first2"); },
+                        [&] { return cat(fl, " a=", keys(a), " b=", keys(b), " first=", i, " last=", j, " form=", where); });
+                }
+            }
+        }
+    }
 }
 
 // destination-only algorithms: fill_n / generate_n for every count in [-1, len]
@@ -447,7 +553,8 @@ void job_overwrite(mc::Reporter& r, int qL, int tL)
         if (c.out_of_time()) { break; }
         overwrite_family<F>(c, a);
     }
-    r.sample(cat(F::name, ": every sequence of length 0..", bd.L, ": fill/replace/replace_if/generate/iter_swap, overlapping copy/move with every shift"));
+    r.sample(cat(F::name, ": every sequence of length 0..", bd.L, ": fill/replace/replace_if/generate/iter_swap, overlapping copy/move with every shift; "
+        "copy/move/copy_backward/move_backward within the buffer for every (first,last,destination) the standard allows; unary/binary transform in place on every sub-range"));
 }
 
 template <typename F1, typename F2, typename G>
@@ -485,14 +592,19 @@ int main(int argc, char** argv)
 #if !defined(MC_PART) || MC_PART == 1
     m.job("copy/ptr->ptr", both, [](mc::Reporter& r) { job_copy<PtrF, PtrF>(r, 5, 8); });
     m.job("copy/input->output", both, [](mc::Reporter& r) { job_copy<InF, OutF>(r, 5, 8); });
+    m.job("sub/copy/ptr->ptr", both, sub([](mc::Reporter& r) { job_copy<PtrF, PtrF>(r, 5, 8); }));
+    m.job("sub/copy/input->output", both, sub([](mc::Reporter& r) { job_copy<InF, OutF>(r, 5, 8); }));
 #endif
 #if !defined(MC_PART) || MC_PART == 2
     m.job("copy/fwd->fwd", both, [](mc::Reporter& r) { job_copy<FwdF, FwdF>(r, 5, 8); });
     m.job("copy/bidi->bidi", both, [](mc::Reporter& r) { job_copy<BidiF, BidiF>(r, 5, 8); });
+    m.job("sub/copy/fwd->fwd", both, sub([](mc::Reporter& r) { job_copy<FwdF, FwdF>(r, 5, 8); }));
+    m.job("sub/copy/bidi->bidi", both, sub([](mc::Reporter& r) { job_copy<BidiF, BidiF>(r, 5, 8); }));
 #endif
 #if !defined(MC_PART) || MC_PART == 3
     m.job("copy/ra->back_inserter", both, [](mc::Reporter& r) { job_copy<RaF, BackInsF>(r, 5, 8); });
     m.job("copy/rev->ra", both, [](mc::Reporter& r) { job_copy<RevF, RaF>(r, 5, 7); });
+    m.job("sub/copy/rev->ra", both, sub([](mc::Reporter& r) { job_copy<RevF, RaF>(r, 5, 7); }));
 #endif
 #if !defined(MC_PART) || MC_PART == 4
     m.job("overwrite/ptr", both, [](mc::Reporter& r) { job_overwrite<PtrF>(r, 5, 8); });
@@ -514,6 +626,18 @@ int main(int argc, char** argv)
     m.job("two-source/ptr+ptr->ptr", both, [](mc::Reporter& r) { job_two_source<PtrF, PtrF, PtrF>(r, 4, 6); });
     m.job("two-source/input+input->output", both, [](mc::Reporter& r) { job_two_source<InF, InF, OutF>(r, 4, 6); });
     m.job("two-source/fwd+fwd->fwd", both, [](mc::Reporter& r) { job_two_source<FwdF, FwdF, FwdF>(r, 4, 6); });
+    m.job("sub/overwrite/ptr", both, sub([](mc::Reporter& r) { job_overwrite<PtrF>(r, 5, 8); }));
+    m.job("sub/overwrite/fwd", both, sub([](mc::Reporter& r) { job_overwrite<FwdF>(r, 5, 8); }));
+    m.job("sub/overwrite/bidi", both, sub([](mc::Reporter& r) { job_overwrite<BidiF>(r, 5, 8); }));
+    m.job("sub/count", both, sub([](mc::Reporter& r) {
+        Ctx c(r);
+        count_family<PtrF>(c, 8);
+        count_family<OutF>(c, 8);
+        count_family<FwdF>(c, 8);
+        r.sample("ptr/output/fwd: fill_n/generate_n for every count in [-1,8]");
+    }));
+    m.job("sub/two-source/ptr+ptr->ptr", both, sub([](mc::Reporter& r) { job_two_source<PtrF, PtrF, PtrF>(r, 4, 6); }));
+    m.job("sub/two-source/input+input->output", both, sub([](mc::Reporter& r) { job_two_source<InF, InF, OutF>(r, 4, 6); }));
 #endif
 #endif
     return m.run();
